@@ -79,15 +79,16 @@ Proof. unfold load, first_attempt. cbn. apply auto_attempt_empty. Qed.
 (* a file that starts with a number and not with the MATLAB magic is read by the text reader and by nothing else,
    for the detection order of the library (matlab, ascii, tex, binary) *)
 Theorem txt_load_is_codec k fl :
-  f_ascii fl = true -> starts_with MAGIC_MAT (fst (read_tag (f_bytes fl))) = false ->
+  f_ascii fl = true -> forallb is_text (fst (read_tag (f_bytes fl))) = true ->
+  starts_with MAGIC_MAT (fst (read_tag (f_bytes fl))) = false ->
   load [FMat; FTxt; FTex; FBin] 1 k fl = txt_decode k (f_lines fl).
 Proof.
-  intros Ha Hm. unfold load, first_attempt. cbn [fmt_of_suffix Z.eqb Pos.eqb].
-  destruct (read_tag (f_bytes fl)) as [tag st] eqn:E. cbn [fst] in Hm.
-  cbn [identify try_io]. rewrite Ha.
+  intros Ha Ht Hm. unfold load, first_attempt. cbn [fmt_of_suffix Z.eqb Pos.eqb].
+  destruct (read_tag (f_bytes fl)) as [tag st] eqn:E. cbn [fst] in Hm, Ht.
+  cbn [identify try_io]. rewrite Ha, Ht. cbn [andb].
   destruct (txt_decode k (f_lines fl)) as [o|e] eqn:D; [reflexivity|].
   destruct (caught e); [|reflexivity].
-  cbn [auto_attempt]. rewrite E. cbn [identify try_io]. rewrite Hm, Ha. exact D.
+  cbn [auto_attempt]. rewrite E. cbn [identify try_io]. rewrite Hm, Ha, Ht. cbn [andb]. exact D.
 Qed.
 
 (* ---- conversions between formats: composition of the round trips ---- *)
